@@ -40,16 +40,18 @@ Definition same_cert (sc ic : cert) : Prop := c_tbs sc = c_tbs ic /\ c_sig sc = 
 
 Definition step (sc ic : cert) : Prop := issued_by sc ic \/ same_cert sc ic.
 
-Fixpoint steps (p : list cert) : Prop :=
+(* every certificate of the list is related to the next one *)
+Fixpoint linked (R : cert -> cert -> Prop) (p : list cert) : Prop :=
   match p with
-  | sc :: ((ic :: _) as r) => step sc ic /\ steps r
+  | sc :: ((ic :: _) as r) => R sc ic /\ linked R r
   | _ => True
   end.
+Definition steps (p : list cert) : Prop := linked step p.
 
 (* path length: [k] certificates (not counting the end entity) lie below [sc]'s issuer [ic];
    an immediately repeated certificate is counted once *)
 Definition depth_below (sc ic : cert) (k : Z) : Z :=
-  if (c_tbs sc =? c_tbs ic)%N && (k >? 0)%Z then (k - 1)%Z else k.
+  if (c_tbs sc =? c_tbs ic)%N && (c_sig sc =? c_sig ic)%N && (k >? 0)%Z then (k - 1)%Z else k.
 Definition pathlen_ok (sc ic : cert) (k : Z) : Prop :=
   (c_pathlen ic < 0)%Z \/ (depth_below sc ic k <= c_pathlen ic)%Z.
 Fixpoint pathlens (k : Z) (p : list cert) : Prop :=
@@ -74,11 +76,7 @@ Definition genuine_path (rv : bool) (chain anchors : list cert) : Prop :=
 Definition issued_by_weak (sc ic : cert) : Prop :=
   c_iss sc = c_subj ic /\ sig_ok (c_key ic) (c_tbs sc) (c_sig sc) (c_alg sc) = true /\ is_ca ic /\ not_revoked sc.
 Definition step_weak (sc ic : cert) : Prop := issued_by_weak sc ic \/ same_cert sc ic.
-Fixpoint steps_weak (p : list cert) : Prop :=
-  match p with
-  | sc :: ((ic :: _) as r) => step_weak sc ic /\ steps_weak r
-  | _ => True
-  end.
+Definition steps_weak (p : list cert) : Prop := linked step_weak p.
 Definition signed_path (chain anchors : list cert) : Prop :=
   exists a, In a anchors /\ steps_weak (chain ++ [a]) /\ pathlens 0 (chain ++ [a]).
 
@@ -110,11 +108,8 @@ Definition eku_ok (leaf : cert) : Prop :=
   c_eku_crit leaf = true ->
   N.land (c_eku leaf) (N.lor n_EXT_KEY_USAGE_TLS_SERVER_AUTH n_EXT_KEY_USAGE_TLS_CLIENT_AUTH) <> 0%N.
 
-Fixpoint links_supported (p : list cert) : Prop :=
-  match p with
-  | sc :: ((ic :: _) as r) => issued_by sc ic /\ link_supported sc ic /\ links_supported r
-  | _ => True
-  end.
+Definition links_supported (p : list cert) : Prop :=
+  linked (fun sc ic => issued_by sc ic /\ link_supported sc ic) p.
 
 (* an anchor that answers for [top] in the issuer loop: the first one that does decides *)
 Definition claims (top a : cert) : Prop :=
@@ -136,3 +131,14 @@ Definition supported_path (rv : bool) (chain : list cert) (before : list cert) (
     Forall (fun a' => ~ claims top a') before.
 
 End Spec.
+
+(* the leaf has not been through an earlier validation (authStatus 0 as the parser leaves it) *)
+Definition hd_fresh (chain : list cert) : Prop :=
+  match chain with c :: _ => c_st0 c = 0%Z | [] => True end.
+
+(* what a DER certificate must look like to get past psX509ParseCert, and all it must look like
+   as far as version, algorithms and critical extensions go *)
+Definition gate_demands (d : pdesc) : Prop :=
+  p_ver d = 2%Z /\ p_unk_crit d = false /\ p_alg_in d = p_alg_out d /\
+  (alg_sha2 (p_alg_in d) = true \/
+   (alg_sha1 (p_alg_in d) = true /\ p_cn_s_len d = p_cn_i_len d /\ p_cn_s d = p_cn_i d)).
